@@ -1221,7 +1221,7 @@ Proof.
   destruct (keq (n, cl) k) eqn:E.
   - apply keq_spec in E. subst k. rewrite (aget_aset_same keq keq_spec) in G. inversion G; subst a. split.
     + intros v Hv. cbn [fst]. destruct (Z.eq_dec o v) as [D|D].
-      * subst. apply cur_aset_same.
+      * subst v. apply cur_aset_same.
       * apply cast_votes in Hv. destruct Hv as [Hv|[a0 [G0 Hv]]]; [congruence|].
         pose proof (I1 _ _ _ G0 Hv). pose proof (OTH v D). cbn [fst] in *. lia.
     + unfold cast. cbn [a_votes]. destruct (aget keq (n, cl) (atts s)) as [a0|] eqn:G0.
@@ -1229,7 +1229,7 @@ Proof.
       * cbn. constructor; [intros []|constructor].
   - apply keq_neq in E. rewrite (aget_aset_other keq keq_spec) in G by exact E. split; [|eapply I2; eauto].
     intros v Hv. destruct (Z.eq_dec o v) as [D|D].
-    + subst. pose proof (CUR _ _ G Hv). pose proof (cur_aset_same c lobs' (last_by s) v n). lia.
+    + subst v. pose proof (CUR _ _ G Hv). pose proof (cur_aset_same c lobs' (last_by s) o n). lia.
     + pose proof (I1 _ _ _ G Hv). pose proof (OTH v D). lia.
 Qed.
 
@@ -1443,12 +1443,17 @@ Proof.
   destruct C as [C1 C2]. split; [lia | apply IH; exact C2].
 Qed.
 
-(* strictly increasing nonces per oracle: holds for every variant of the code *)
-Definition inv_incr (w : Z) (s : st) : Prop :=
+(* strictly increasing nonces per oracle: holds for every variant of the code.
+   The oracle's cursor dominates every nonce it voted for; and every logged vote is either still stored in its
+   attestation or lies below the last observed nonce (needed when the cursors are rebuilt by a genesis import) *)
+Definition vote_stored (s : st) (w m : Z) : Prop :=
+  (exists cl a, aget keq (m, cl) (atts s) = Some a /\ In w (a_votes a)) \/ m + 1 <= last_obs s.
+Definition inv_incr (c : cfg) (w : Z) (s : st) : Prop :=
   incr (nonces_of w (vlog s)) /\
-  (nonces_of w (vlog s) <> [] -> exists e, aget Z.eqb w (last_by s) = Some e /\ last (nonces_of w (vlog s)) 0 <= e).
+  (forall m, In m (nonces_of w (vlog s)) -> m <= cursor c s w) /\
+  (forall m, In m (nonces_of w (vlog s)) -> vote_stored s w m).
 
-(* consecutive nonces per oracle: the code without the cursor lift *)
+(* consecutive nonces per oracle: the code without the cursor lift, between restarts *)
 Definition inv_contig (w : Z) (s : st) : Prop :=
   consec (nonces_of w (vlog s)) /\
   (nonces_of w (vlog s) <> [] -> aget Z.eqb w (last_by s) = Some (last (nonces_of w (vlog s)) 0)).
@@ -1458,22 +1463,135 @@ Definition no_unbond_of (w : Z) (_ : st) (x : op) : Prop :=
 
 (* the cursor of w survives the step: the code keeps cursors on unbond, or the step is not Unbond w *)
 Definition safe_cursor (c : cfg) (w : Z) (s : st) (x : op) : Prop := c_unbond_del c = false \/ no_unbond_of w s x.
+(* ... and the chain is not restarted from an exported genesis (InitGenesis lifts a lagging oracle to lastObserved-1) *)
+Definition safe_contig (c : cfg) (w : Z) (s : st) (x : op) : Prop :=
+  safe_cursor c w s x /\ match x with ExportImport => False | _ => True end.
 
 Lemma cursor_noclamp : forall c s o e, c_cursor_clamp c = false -> aget Z.eqb o (last_by s) = Some e -> cursor c s o = e.
-Proof. intros c s o e F G. unfold cursor. rewrite G, F. reflexivity. Qed.
+Proof. intros c s o e F G. unfold cursor, cur. rewrite G, F. reflexivity. Qed.
 
-Lemma inv_incr_vote : forall c w s s' o n,
-  inv_incr w s -> n = cursor c s o + 1 ->
-  vlog s' = vlog s ++ [(o, n)] -> last_by s' = aset Z.eqb o n (last_by s) -> inv_incr w s'.
+Lemma incr_snoc_all : forall l n, incr l -> (forall m, In m l -> m < n) -> incr (l ++ [n]).
 Proof.
-  intros c w s s' o n [C E] Hn Hvl Hlb. unfold inv_incr. rewrite Hvl, Hlb, nonces_of_snoc.
-  destruct (o =? w) eqn:D.
-  - apply Z.eqb_eq in D. subst o. split.
-    + apply incr_snoc; auto. intro NE. destruct (E NE) as [e [Ge Le]].
-      pose proof (cursor_ge_entry c s w e Ge). lia.
-    + intros _. rewrite last_last. exists n. split; [apply (aget_aset_same Z.eqb zeqb_spec) | lia].
-  - apply Z.eqb_neq in D. rewrite app_nil_r. split; auto.
-    intro NE. rewrite (aget_aset_other Z.eqb zeqb_spec) by exact D. auto.
+  intros l n C H. apply incr_snoc; auto. intro NE. apply H.
+  destruct l as [|a r]; [contradiction|]. apply (@exists_last _ (a :: r)) in NE. destruct NE as [l' [x E]].
+  rewrite E. rewrite last_last. apply in_or_app. right. left. reflexivity.
+Qed.
+
+Lemma In_nonces_snoc : forall w l o n m, In m (nonces_of w (l ++ [(o, n)])) -> In m (nonces_of w l) \/ (o = w /\ m = n).
+Proof.
+  intros w l o n m H. rewrite nonces_of_snoc in H. apply in_app_or in H. destruct H as [H|H]; auto.
+  destruct (o =? w) eqn:E; [|contradiction]. apply Z.eqb_eq in E. destruct H as [H|[]]. auto.
+Qed.
+
+(* an accepted vote (kept or flipping): the three parts of inv_incr *)
+Lemma inv_incr_vote : forall c w s s' o n cl,
+  inv_incr c w s -> n = cursor c s o + 1 ->
+  vlog s' = vlog s ++ [(o, n)] -> last_by s' = aset Z.eqb o n (last_by s) ->
+  last_obs s <= last_obs s' ->
+  (* what is stored afterwards: the attestation voted on holds o; stored votes stay stored unless below lastObserved *)
+  (exists a, aget keq (n, cl) (atts s') = Some a /\ In o (a_votes a)) ->
+  (forall w0 m, vote_stored s w0 m -> vote_stored s' w0 m) ->
+  inv_incr c w s'.
+Proof.
+  intros c w s s' o n cl [C [E K]] Hn Hvl Hlb Hlo Hnew Hkeep. unfold inv_incr. rewrite Hvl. repeat split.
+  - rewrite nonces_of_snoc. destruct (o =? w) eqn:D; [|rewrite app_nil_r; exact C].
+    apply Z.eqb_eq in D. subst o. apply incr_snoc_all; auto. intros m Hm. specialize (E m Hm). lia.
+  - intros m Hm. apply In_nonces_snoc in Hm. unfold cursor. rewrite Hlb.
+    destruct Hm as [Hm|[D Hm]].
+    + specialize (E m Hm). destruct (Z.eq_dec o w) as [D|D].
+      * subst o. pose proof (cur_aset_same c (last_obs s') (last_by s) w n). lia.
+      * rewrite cur_aset_other by exact D. pose proof (cur_mono_lobs c _ _ (last_by s) w Hlo). unfold cursor in E. lia.
+    + subst. apply cur_aset_same.
+  - intros m Hm. apply In_nonces_snoc in Hm. destruct Hm as [Hm|[D Hm]].
+    + apply Hkeep. apply K. exact Hm.
+    + subst. left. destruct Hnew as [a [G I]]. eauto.
+Qed.
+
+Lemma vote_stored_keep_aset : forall s s' n cl o,
+  atts s' = aset keq (n, cl) (cast s n cl o) (atts s) -> last_obs s' = last_obs s ->
+  forall w0 m, vote_stored s w0 m -> vote_stored s' w0 m.
+Proof.
+  intros s s' n cl o Hat Hlo w0 m [[cl0 [a [G I]]]|L]; [|right; lia].
+  left. rewrite Hat. destruct (keq (n, cl) (m, cl0)) eqn:E.
+  - apply keq_spec in E. inversion E; subst. exists cl0. eexists. split; [apply (aget_aset_same keq keq_spec)|].
+    unfold cast. cbn [a_votes]. rewrite G. apply in_or_app. left. exact I.
+  - apply keq_neq in E. exists cl0, a. rewrite (aget_aset_other keq keq_spec) by exact E. auto.
+Qed.
+
+Lemma vote_stored_keep_flip : forall s s' n cl o,
+  atts s' = prune n (aset keq (n, cl) {| a_obs := true; a_votes := a_votes (cast s n cl o) |}
+                       (aset keq (n, cl) (cast s n cl o) (atts s))) ->
+  last_obs s' = n -> n = last_obs s + 1 ->
+  forall w0 m, vote_stored s w0 m -> vote_stored s' w0 m.
+Proof.
+  intros s s' n cl o Hat Hlo Hn w0 m [[cl0 [a [G I]]]|L]; [|right; lia].
+  destruct ((n <=? max_keep) || (n - max_keep <? m)) eqn:P.
+  - left. rewrite Hat. destruct (keq (n, cl) (m, cl0)) eqn:E.
+    + apply keq_spec in E. inversion E; subst m cl0. exists cl. eexists. split.
+      * rewrite aget_prune. cbn [fst]. rewrite P. apply (aget_aset_same keq keq_spec).
+      * cbn [a_votes]. unfold cast. cbn [a_votes]. rewrite G. apply in_or_app. left. exact I.
+    + apply keq_neq in E. exists cl0, a. split; auto.
+      rewrite aget_prune. cbn [fst]. rewrite P. rewrite !(aget_aset_other keq keq_spec) by exact E. exact G.
+  - right. apply orb_false_iff in P. destruct P as [P1 P2]. zb. unfold max_keep in *. lia.
+Qed.
+
+(* operations other than Vote and ExportImport: vote log untouched, w's cursor entry untouched *)
+Lemma cursor_frame_step : forall c w s x,
+  safe_cursor c w s x ->
+  match x with Vote _ _ _ _ _ | ExportImport => True | _ =>
+    tally_core s (fst (step c s x)) /\ aget Z.eqb w (last_by (fst (step c s x))) = aget Z.eqb w (last_by s)
+  end.
+Proof.
+  intros c w s x SF. destruct x; cbn [step]; auto.
+  - destruct (exec_core s nonce handler_ok) as [A B]. rewrite B. auto.
+  - destruct (bond_core c s o bridger ext stake) as [A [B _]]. rewrite B. auto.
+  - destruct (add_core c s o amount) as [A [B _]]. rewrite B. auto.
+  - destruct (slash_core s os) as [A [B _]]. rewrite B. auto.
+  - split; [unfold tally_core; prj; auto | reflexivity].
+  - destruct (gov_core s os) as [A [B _]]. rewrite B. auto.
+  - destruct (unbond_core c s o) as [A _]. split; [exact A|].
+    unfold unbond. destruct (zmem o (proposal s)); prj; auto.
+    destruct (aget Z.eqb o (oracles s)) as [rec|]; prj; auto.
+    destruct (o_online rec); prj; auto. destruct (o_unb rec); prj; auto.
+    destruct (c_unbond_del c) eqn:D; auto.
+    unfold safe_cursor in SF. destruct SF as [SF|SF]; [congruence|]. cbn [no_unbond_of] in SF.
+    apply (aget_adel_other Z.eqb zeqb_spec). exact SF.
+  - destruct (edit_core s o b) as [A [B _]]. rewrite B. auto.
+  - destruct (mature_core s) as [A [B _]]. cbn [fst]. rewrite B. auto.
+  - destruct (confirm_core s kind key ext) as [[A [B _]] _]. rewrite B. auto.
+  - destruct (add_batch_core s) as [[A [B _]] _]. rewrite B. auto.
+  - destruct (add_bcall_core s) as [[A [B _]] _]. rewrite B. auto.
+  - split; [unfold tally_core; prj; auto | reflexivity].
+  - destruct (end_block_core s newset) as [A [B _]]. rewrite B. auto.
+Qed.
+
+Lemma inv_incr_step : forall w c s x, inv_incr c w s -> safe_cursor c w s x -> inv_incr c w (fst (step c s x)).
+Proof.
+  intros w c s x IH SF. pose proof (cursor_frame_step c w s x SF) as Fr. destruct x;
+    try (destruct Fr as [[A [B [_ D]]] E]; destruct IH as [I1 [I2 I3]]; unfold inv_incr, vote_stored, cursor, cur in *;
+         rewrite A, B, D, E; auto; fail).
+  - cbn [step]. pose proof (vote_cases c s bridger nonce cls park members) as V. vote_inv V.
+    + rewrite Hs. exact IH.
+    + eapply (inv_incr_vote c w s _ o nonce cls); eauto; try lia.
+      * rewrite Hat. eexists. split; [apply (aget_aset_same keq keq_spec)|].
+        unfold cast. cbn [a_votes]. apply in_or_app. right. left. reflexivity.
+      * apply (vote_stored_keep_aset s _ nonce cls o); assumption.
+    + eapply (inv_incr_vote c w s _ o nonce cls); eauto; try lia.
+      * rewrite Hat. eexists. split.
+        -- rewrite aget_prune. cbn [fst].
+           replace ((nonce <=? max_keep) || (nonce - max_keep <? nonce)) with true.
+           ++ apply (aget_aset_same keq keq_spec).
+           ++ symmetry. apply orb_true_iff. right. apply Z.ltb_lt. unfold max_keep. lia.
+        -- cbn [a_votes]. unfold cast. cbn [a_votes]. apply in_or_app. right. left. reflexivity.
+      * apply (vote_stored_keep_flip s _ nonce cls o); assumption.
+  - (* export + import: cursors rebuilt from the stored votes; a vote no longer stored lies below lastObserved *)
+    cbn [step fst]. destruct IH as [I1 [I2 I3]]. destruct (export_core c s) as [[A [B [_ D]]] _].
+    unfold inv_incr. rewrite D. repeat split; auto.
+    intros m Hm. unfold cursor, export_import. prj.
+    destruct (rebuild_cursors_spec c (last_obs s) (atts s) []) as [M C]. unfold rebuild_cursors.
+    destruct (I3 m Hm) as [[cl [a [G I]]]|L].
+    + apply (C (m, cl) a w); [apply (aget_In keq keq_spec); exact G | exact I].
+    + specialize (M w). unfold cur at 1 in M. cbn [aget] in M. destruct (1 <=? last_obs s) eqn:O; zb; lia.
 Qed.
 
 Lemma inv_contig_vote : forall c w s s' o n,
@@ -1490,89 +1608,59 @@ Proof.
     intro NE. rewrite (aget_aset_other Z.eqb zeqb_spec) by exact D. auto.
 Qed.
 
-(* both invariants only mention vlog and last_by; one frame lemma serves both *)
-Lemma cursor_frame_step : forall c w s x,
-  safe_cursor c w s x ->
-  match x with Vote _ _ _ _ _ => True | _ =>
-    vlog (fst (step c s x)) = vlog s /\ aget Z.eqb w (last_by (fst (step c s x))) = aget Z.eqb w (last_by s)
-  end.
-Proof.
-  intros c w s x SF. destruct x; cbn [step]; auto.
-  - destruct (exec_core s nonce handler_ok) as [[_ [_ [_ A]]] B]. rewrite A, B. auto.
-  - destruct (bond_core c s o bridger ext stake) as [[_ [_ [_ A]]] [B _]]. rewrite A, B. auto.
-  - destruct (add_core c s o amount) as [[_ [_ [_ A]]] [B _]]. rewrite A, B. auto.
-  - destruct (slash_core s os) as [[_ [_ [_ A]]] [B _]]. rewrite A, B. auto.
-  - destruct (gov_core s os) as [[_ [_ [_ A]]] [B _]]. rewrite A, B. auto.
-  - unfold unbond. destruct (zmem o (proposal s)); prj; auto.
-    destruct (aget Z.eqb o (oracles s)) as [rec|]; prj; auto.
-    destruct (o_online rec); prj; auto. destruct (o_unb rec); prj; auto.
-    destruct (c_unbond_del c) eqn:D; auto. split; auto.
-    unfold safe_cursor in SF. destruct SF as [SF|SF]; [congruence|]. cbn [no_unbond_of] in SF.
-    apply (aget_adel_other Z.eqb zeqb_spec). exact SF.
-  - destruct (edit_core s o b) as [[_ [_ [_ A]]] [B _]]. rewrite A, B. auto.
-  - destruct (confirm_core s kind key ext) as [[[_ [_ [_ A]]] [B _]] _]. rewrite A, B. auto.
-  - destruct (add_batch_core s) as [[[_ [_ [_ A]]] [B _]] _]. rewrite A, B. auto.
-  - destruct (add_bcall_core s) as [[[_ [_ [_ A]]] [B _]] _]. rewrite A, B. auto.
-  - destruct (end_block_core s newset) as [[_ [_ [_ A]]] [B _]]. rewrite A, B. auto.
-Qed.
-
-Lemma inv_incr_step : forall w c s x, inv_incr w s -> safe_cursor c w s x -> inv_incr w (fst (step c s x)).
-Proof.
-  intros w c s x IH SF. pose proof (cursor_frame_step c w s x SF) as Fr. destruct x;
-    try (destruct Fr as [A B]; unfold inv_incr; rewrite A, B; exact IH).
-  cbn [step]. pose proof (vote_cases c s bridger nonce cls park members) as V. vote_inv V.
-  - rewrite Hs. exact IH.
-  - eapply inv_incr_vote; eauto.
-  - eapply inv_incr_vote; eauto.
-Qed.
-
 Lemma inv_contig_step : forall w c s x, c_cursor_clamp c = false ->
-  inv_contig w s -> safe_cursor c w s x -> inv_contig w (fst (step c s x)).
+  inv_contig w s -> safe_contig c w s x -> inv_contig w (fst (step c s x)).
 Proof.
-  intros w c s x F IH SF. pose proof (cursor_frame_step c w s x SF) as Fr. destruct x;
-    try (destruct Fr as [A B]; unfold inv_contig; rewrite A, B; exact IH).
+  intros w c s x F IH [SF NX]. pose proof (cursor_frame_step c w s x SF) as Fr. destruct x; try contradiction;
+    try (destruct Fr as [[_ [_ [_ A]]] B]; unfold inv_contig; rewrite A, B; exact IH).
   cbn [step]. pose proof (vote_cases c s bridger nonce cls park members) as V. vote_inv V.
   - rewrite Hs. exact IH.
   - eapply inv_contig_vote; eauto.
   - eapply inv_contig_vote; eauto.
 Qed.
 
-(* every variant: strictly increasing, hence no second vote for a nonce *)
+Lemma inv_incr_init : forall c w, inv_incr c w init.
+Proof. intros. unfold inv_incr. cbn. repeat split; [intros m [] | intros m []]. Qed.
+
+(* every variant: strictly increasing, hence no second vote for a nonce — also across genesis export + import *)
 Theorem votes_increasing : forall c h w,
   guarded c (safe_cursor c w) init h ->
   incr (nonces_of w (vlog (run c init h))) /\ NoDup (nonces_of w (vlog (run c init h))).
 Proof.
   intros c h w G.
-  assert (I : inv_incr w (run c init h)).
-  { apply (run_inv_guarded (inv_incr w) (safe_cursor c w) c).
+  assert (I : inv_incr c w (run c init h)).
+  { apply (run_inv_guarded (inv_incr c w) (safe_cursor c w) c).
     - intros. apply inv_incr_step; assumption.
-    - split; [exact Logic.I | intro F; exfalso; apply F; reflexivity].
+    - apply inv_incr_init.
     - exact G. }
   destruct I as [C _]. split; auto. apply incr_NoDup. exact C.
 Qed.
 
-(* the code without the cursor lift: consecutive (no skipped nonce either) *)
+(* the code without the cursor lift: consecutive (no skipped nonce either), between restarts *)
 Theorem votes_contiguous : forall c h w,
   c_cursor_clamp c = false ->
-  guarded c (no_unbond_of w) init h ->
+  guarded c (safe_contig c w) init h ->
   consec (nonces_of w (vlog (run c init h))) /\ NoDup (nonces_of w (vlog (run c init h))).
 Proof.
   intros c h w F G.
   assert (I : inv_contig w (run c init h)).
-  { apply (run_inv_guarded (inv_contig w) (safe_cursor c w) c).
+  { apply (run_inv_guarded (inv_contig w) (safe_contig c w) c).
     - intros. apply inv_contig_step; assumption.
     - split; [exact Logic.I | intro E; exfalso; apply E; reflexivity].
-    - eapply guarded_weaken; [|exact G]. intros s x S. right. exact S. }
+    - exact G. }
   destruct I as [C _]. split; auto. apply consec_NoDup. exact C.
 Qed.
 
-(* the repaired code: for EVERY history and every oracle — no oracle ever has two accepted votes for one nonce *)
+(* the code as it is: for EVERY history and every oracle — no oracle ever has two accepted votes for one nonce *)
 Theorem votes_increasing_fixed : forall c h w,
   c_unbond_del c = false ->
   incr (nonces_of w (vlog (run c init h))) /\ NoDup (nonces_of w (vlog (run c init h))).
 Proof.
   intros c h w F. apply votes_increasing. apply guarded_all. intros s x. left. exact F.
 Qed.
+
+(* histories without a restart from an exported genesis *)
+Definition no_restart (_ : st) (x : op) : Prop := match x with ExportImport => False | _ => True end.
 
 (* ------------------------------------------------------------------ *)
 (* refutations (concrete witnesses, replayed on the real keeper by harness/c01) *)
@@ -1955,18 +2043,16 @@ Theorem example_endblock :
   snd (step cfg0 s (Vote 2 1 1 true [])) = Err E_Offline /\ snd (step cfg0 s (Vote 1 1 1 true [])) = Ok.
 Proof. vm_compute. repeat split; reflexivity. Qed.
 
-(* without Unbond-guard: the repaired code that also has no cursor lift — consecutive nonces for every history *)
+(* the code as it is (cursor kept on unbond, no cursor lift): consecutive nonces for every history that does not
+   restart the chain from an exported genesis (InitGenesis rebuilds the cursors from the stored votes and thereby
+   lifts an oracle that lags behind lastObserved-1 — by design, see the comment in genesis.go) *)
 Theorem votes_contiguous_fixed : forall c h w,
   c_unbond_del c = false -> c_cursor_clamp c = false ->
+  guarded c no_restart init h ->
   consec (nonces_of w (vlog (run c init h))) /\ NoDup (nonces_of w (vlog (run c init h))).
 Proof.
-  intros c h w F1 F2.
-  assert (I : inv_contig w (run c init h)).
-  { apply (run_inv_guarded (inv_contig w) (safe_cursor c w) c).
-    - intros. apply inv_contig_step; assumption.
-    - split; [exact Logic.I | intro E; exfalso; apply E; reflexivity].
-    - apply guarded_all. intros s x. left. exact F1. }
-  destruct I as [C _]. split; auto. apply consec_NoDup. exact C.
+  intros c h w F1 F2 G. apply votes_contiguous; auto.
+  eapply guarded_weaken; [|exact G]. intros s x NR. split; [left; exact F1 | exact NR].
 Qed.
 
 (* ------------------------------------------------------------------ *)
@@ -2038,4 +2124,42 @@ Theorem power_at_bounds :
   power {| o_stake := fx 100000; o_online := true; o_bridger := 0; o_ext := 0; o_slash := 0; o_start := 0; o_deleg := true; o_unb := false |} = 1000 /\
   power {| o_stake := fx 10099; o_online := true; o_bridger := 0; o_ext := 0; o_slash := 0; o_start := 0; o_deleg := true; o_unb := false |} = 100 /\
   power {| o_stake := fx 99999; o_online := true; o_bridger := 0; o_ext := 0; o_slash := 0; o_start := 0; o_deleg := true; o_unb := false |} = 999.
+Proof. vm_compute. repeat split; reflexivity. Qed.
+
+(* ------------------------------------------------------------------ *)
+(* genesis export + import                                              *)
+(* ------------------------------------------------------------------ *)
+Theorem export_import_effect : forall c s,
+  let s' := export_import c s in
+  last_obs s' = last_obs s /\ atts s' = atts s /\ applied s' = applied s /\ effects s' = effects s /\
+  vlog s' = vlog s /\ oracles s' = oracles s /\ proposal s' = proposal s /\
+  pending s' = [] /\                                         (* parked claims are not exported: zero executions *)
+  last_total s' = online_power (oracles s') /\               (* recomputed after the records are written *)
+  (forall k a v, aget keq k (atts s) = Some a -> In v (a_votes a) -> fst k <= cursor c s' v).
+Proof.
+  intros c s. cbv zeta. unfold export_import. prj. repeat split; auto.
+  intros k a v G Hv. unfold cursor. prj. unfold rebuild_cursors.
+  destruct (rebuild_cursors_spec c (last_obs s) (atts s) []) as [_ C].
+  eapply C; [apply (aget_In keq keq_spec); exact G | exact Hv].
+Qed.
+
+Definition cfg1 : cfg := {| c_threshold := fx 10000; c_multiple := 10; c_slashfrac := 800000000000000000;
+                            c_unbond_del := false; c_cursor_clamp := false |}.
+Definition h_export : list op :=
+  [GovSet [0; 1; 2]; Bond 0 0 0 (fx 30000); Bond 1 1 1 (fx 30000); Bond 2 2 2 (fx 15000);
+   Vote 0 1 1 true []; Vote 1 1 1 true [];        (* event 1 observed and parked *)
+   Vote 0 2 2 true []; Vote 1 2 2 true [];        (* event 2 observed and parked *)
+   Exec 1 true;                                   (* 1 executed, 2 stays parked *)
+   Vote 0 3 3 true [];                            (* oracle 0 is ahead; oracle 2 never voted *)
+   ExportImport].
+
+Theorem example_export :
+  let s := run cfg1 init h_export in
+  last_obs s = 2 /\ pending s = [] /\ effects s = [1] /\ last_total s = 750 /\
+  snd (step cfg1 s (Exec 1 true)) = Err E_NoClaim /\      (* the executed claim does not come back *)
+  snd (step cfg1 s (Exec 2 true)) = Err E_NoClaim /\      (* the parked one is lost (known gap C05-2): zero executions *)
+  snd (step cfg1 s (Vote 0 3 3 true [])) = Err E_NonContig /\   (* no second vote *)
+  snd (step cfg1 s (Vote 0 4 4 true [])) = Ok /\
+  snd (step cfg1 s (Vote 1 3 3 true [])) = Ok /\
+  snd (step cfg1 s (Vote 2 2 2 true [])) = Ok.            (* a lagging oracle restarts at lastObserved-1, like a new one *)
 Proof. vm_compute. repeat split; reflexivity. Qed.
